@@ -69,6 +69,9 @@ def check(ctx: Ctx) -> None:
     # ------------------------------------------------------------------ C19.b
     ctx.rule('C19.b', 'DSF: sector hexagons of Cell3Sec follow pos/radius/rotation', floor=20)
     analyse_class(ctx, 'C19.b', CELL3SEC, 'Cell3Sec')
+    from ..dsf import auto_memo_check
+    ctx.rule('C19.d', 'no auto-discovered lazily filled cache of the classes in the anchored modules can be stale at the exit of a public method (dependencies = what the fill expression reads, incl. mutating calls on held sub-objects)', floor=10)
+    auto_memo_check(ctx, 'C19.d', [SH, CE])
     _check_add_user(ctx)
 
 
